@@ -1860,6 +1860,39 @@ fn main() {
             println!("mismatches={}", bad);
             println!("first_mismatch={}", first);
         }
+        // memfs_append_after_partial_read : in-memory file system; three records; another handle leaves the shared cursor behind
+        // (a reader that stops after one record / a size query); the log is reopened for appending; all four records must be there
+        "memfs_append_after_partial_read" => {
+            use raindb::fs::FileSystem;
+            for variant in ["partial_read", "size_query"] {
+                let fs: std::sync::Arc<dyn raindb::fs::FileSystem> = std::sync::Arc::new(raindb::fs::InMemoryFileSystem::new());
+                let path = std::path::PathBuf::from("wal-1.log");
+                {
+                    let mut w = v::VLogWriter::new(std::sync::Arc::clone(&fs), &path, false).unwrap();
+                    for i in 0..3u8 {
+                        w.append(&vec![i + 1; 20]).unwrap();
+                    }
+                }
+                if variant == "partial_read" {
+                    let mut r = v::VLogReader::new(std::sync::Arc::clone(&fs), &path).unwrap();
+                    let _ = r.read_record();
+                } else {
+                    let _ = fs.get_file_size(&path);
+                }
+                {
+                    let mut w = v::VLogWriter::new(std::sync::Arc::clone(&fs), &path, true).unwrap();
+                    w.append(&vec![9u8; 20]).unwrap();
+                }
+                let mut r = v::VLogReader::new(std::sync::Arc::clone(&fs), &path).unwrap();
+                let mut n = 0;
+                while let Ok((rec, eof)) = r.read_record() {
+                    if eof { break; }
+                    if rec.len() == 20 { n += 1; }
+                    if n > 10 { break; }
+                }
+                println!("after_{}={}", variant, n);
+            }
+        }
         "vs_recover" => {
             // a database is created, written and closed; a fresh version set recovers from its files
             use raindb::WriteOptions;
